@@ -119,10 +119,10 @@ func genCorpusCase(t *rapid.T, prop string) *corpusCase {
 		ops = append(append([]string{}, mutOps...), freeOps...)
 		ops = append(ops, freeOps...)
 	case "C16":
-		ops = []string{"header", "header", "comment", "paren", "block", "closure", "extract", "dupfunc", "alias", "reorder"}
+		ops = []string{"header", "header", "comment", "paren", "block", "closure", "extract", "dupfunc", "alias", "dotimport", "dupimport", "reorder"}
 	case "C02", "C04", "C10", "C11", "C15", "C03":
 		// behaviour is judged: no listing-order changes
-		ops = []string{"paren", "comment", "alias", "block", "closure", "extract", "dupfunc", "header"}
+		ops = []string{"paren", "comment", "alias", "dotimport", "dupimport", "block", "closure", "extract", "dupfunc", "header"}
 	}
 	n := 1 + uniform(t, "nmut", 6)
 	for i := 0; i < n; i++ {
